@@ -18,5 +18,8 @@ for d in cmd/*/; do
   [ -f "$d/tags" ] && TAGS="verif,$(cat $d/tags)"
   go build -tags "$TAGS" -overlay ".build/overlay-$id/overlay.json" -o ".build/bin/$id" "./cmd/$id" || rc=1
 done
+for pre in cmd/*/pre.sh; do
+  [ -x "$pre" ] && { "$pre" >/dev/null 2>&1 || echo "warning: $pre failed during setup (it runs again with its check)"; }
+done
 if [ -x ref/java/build.sh ]; then ref/java/build.sh || rc=1; fi
 exit $rc
